@@ -231,7 +231,15 @@ func visitInstr(fr *frame, instr ssa.Instruction) continuation {
 		fr.env[instr] = fr.get(instr.X) // (can't fail)
 
 	case *ssa.Convert:
-		fr.env[instr] = conv(instr.Type(), instr.X.Type(), fr.get(instr.X))
+		x := fr.get(instr.X)
+		if sv, ok := x.(symv); ok && sv.k == 'i' {
+			if bt, ok := instr.Type().Underlying().(*types.Basic); ok && bt.Info()&(types.IsFloat|types.IsString) != 0 {
+				// no symbolic floats / int->string: fork over the feasible values
+				n := fr.i.R.concretize(sv, 64, "integer converted to "+bt.Name())
+				x = conv(instr.X.Type(), types.Typ[types.Int64], n)
+			}
+		}
+		fr.env[instr] = conv(instr.Type(), instr.X.Type(), x)
 
 	case *ssa.SliceToArrayPointer:
 		fr.env[instr] = sliceToArrayPointer(instr.Type(), instr.X.Type(), fr.get(instr.X))
@@ -346,7 +354,7 @@ func visitInstr(fr *frame, instr ssa.Instruction) continuation {
 		fr.env[instr] = makeMap(instr.Type().Underlying().(*types.Map).Key(), reserve)
 
 	case *ssa.Range:
-		fr.env[instr] = rangeIter(fr.i.R, fr.get(instr.X), instr.X.Type())
+		fr.env[instr] = rangeIter(fr.i.R, fr.get(instr.X), instr.X.Type(), fr.i.R.mapOrderOpen(fr))
 
 	case *ssa.Next:
 		fr.env[instr] = fr.get(instr.Iter).(iter).next()
